@@ -164,6 +164,13 @@ func guarded(f func() ([]ast.Node, error)) (o Outcome) {
 // (inconclusive for every property except C03, which confirms it in isolation and reports it).
 var curCtx *harness.Ctx
 
+// Unwatched calls the entry point under recover only: no watchdog, hence no lock shared between goroutines. C18 must use
+// it - the watchdog's mutex orders all calls of all goroutines (a happens-before edge per call), and the race detector then
+// only reports accesses of calls that truly overlap in time.
+func (e *Entry) Unwatched(src string) Outcome {
+	return guarded(func() ([]ast.Node, error) { return e.Call(src) })
+}
+
 func (e *Entry) Guarded(src string) Outcome {
 	if curCtx != nil {
 		done := curCtx.Guard(&harness.Case{Entry: e.Name, Input: src}, 20*time.Second)
